@@ -134,7 +134,15 @@ def encode(rng, wbits, total, delta=False, ref=b'', e8=False, reset_interval=0, 
                 fb=(pos//32768+1)*32768
                 while fb<pos+bsize:
                     cuts.append(len(bw.out)+(fb-pos)); fb+=32768
-            bw.raw(chunk); data+=chunk; pos+=bsize
+            if delta:
+                # LZX DELTA: a 16-bit chunk-size word opens every frame, also inside an uncompressed block
+                fb=(pos//32768+1)*32768; a=0
+                while fb<pos+bsize:
+                    bw.raw(chunk[a:fb-pos]); bw.raw(bytes([rng.randrange(256),rng.randrange(256)])); a=fb-pos; fb+=32768
+                bw.raw(chunk[a:])
+            else:
+                bw.raw(chunk)
+            data+=chunk; pos+=bsize
             if cuts is not None and pos%32768==0 and pos<total: cuts.append(len(bw.out))
             at_reset = reset_interval and pos%(32768*reset_interval)==0
             if bsize&1 and pos<total and not at_reset: bw.raw(b'\x00')   # the decoder forgets the odd-length realign across a state reset
@@ -187,6 +195,7 @@ def encode(rng, wbits, total, delta=False, ref=b'', e8=False, reset_interval=0, 
                 pos+=ml
             if pos%32768==0 or pos==total:
                 bw.align16()
+                if delta and pos%32768==0 and pos<bend and pos<total: bw.bits(rng.randrange(65536),16)   # chunk-size word of a frame that starts inside this block
                 if cuts is not None and pos%32768==0 and pos<total and (not cuts or cuts[-1]!=len(bw.out)): cuts.append(len(bw.out))
     bw.align16()
     return bytes(bw.out), bytes(data)
